@@ -1,0 +1,8 @@
+//go:build !verif
+
+package session
+
+// verifHook is a no-op unless the package is built with the verif tag, in
+// which case it reports store and counter operations at their linearization
+// point to an installed tracer.
+func verifHook(obj interface{}, op string, id uint16, pkt interface{}) {}
